@@ -42,7 +42,7 @@ def rule_writers(ctx: Ctx, rule: str = "C01.1") -> None:
             if ba is None or ba[1] not in LEDGER:
                 continue
             recv, attr = ba
-            key = (fn.module.relpath,) + (recv.lineno, recv.col_offset, recv.end_lineno, recv.end_col_offset)
+            key = A.fact_key(fn.module, recv)
             rt = ctx.facts.types.get(key, "")
             is_ab = AB in rt or (isinstance(recv, ast.Name) and recv.id == "self" and fn.cls is not None and fn.cls.qualname == AB)
             if not is_ab:
